@@ -76,7 +76,14 @@ def cases(tier):
                 i += 1
                 p = 1 if c["det"] == "stat" else 1 + i % 3
                 out.append(dict(c, n=n, nan=nan, p=p, kind=kinds[i % 4] if not nan else "int", cost=costs[(i // 4) % 4], seed=i))
-    return out
+    # the same requirements on the data hold for the data given to predict / transform after a valid fit
+    extra = []
+    for c in out:
+        ok, _ = documented_valid(c)
+        ok = ok and documented_valid(dict(c, n=min_len(c) + 9, nan=False))[1]  # the preceding fit must itself be admissible
+        if ok and c["kind"] != "huge":
+            extra.append(dict(c, stage=["predict", "transform"][c["seed"] % 2], seed=c["seed"] + 100000))
+    return out + extra
 
 
 def make_data(c):
@@ -138,6 +145,17 @@ def impl(c):
     err, det = stage(lambda: build(c), "ctor")
     if err:
         return {"outcome": err}
+    if c.get("stage"):  # fit on admissible data, then hand the data under test to predict / transform
+        Xfit = make_data(dict(c, n=min_len(c) + 9, nan=False))
+        err, _ = stage(lambda: det.fit(Xfit), "fit")
+        if err:
+            return {"outcome": "setup-" + err}
+        err, y = stage(lambda: getattr(det, c["stage"])(X), "predict")
+        if err:
+            return {"outcome": err}
+        if c["stage"] == "transform":
+            return {"outcome": "ok", "dense_rows": int(len(y))}
+        return {"outcome": "ok", **frame_info(y)}
     err, _ = stage(lambda: det.fit(X), "fit")
     if err:
         return {"outcome": err}
@@ -197,6 +215,21 @@ def permitted_extra(c, out):
 def oracle(c, r):
     out = r["outcome"]
     ok, fit = documented_valid(c)
+    if c.get("stage"):
+        if out.startswith("setup-"):
+            return None if permitted_extra(c, out) else f"{c['det']}: fit on admissible data failed with {out[6:100]} ({describe(c)})"
+        if not fit:
+            if out.startswith("predict:ValueError") and not permitted_extra(c, out):
+                return None
+            what = "data with missing values" if c["nan"] else "data shorter than the documented minimum"
+            return f"{c['det']}: {what} given to {c['stage']} after a valid fit ({describe(c)}) give {out[:90]} instead of ValueError"
+        if out == "ok":
+            if c["stage"] == "transform":
+                return None if r["dense_rows"] == c["n"] else f"transform returns {r['dense_rows']} rows for {c['n']} samples ({describe(c)})"
+        elif permitted_extra(c, out):
+            return None
+        else:
+            return f"{c['det']}: {c['stage']} on admissible finite data after a valid fit ({describe(c)}) fails with {out[:110]}"
     if not (ok and fit):
         if (out.startswith("ctor:ValueError") or out.startswith("fit:ValueError")) and not permitted_extra(c, out):
             return None
@@ -236,9 +269,12 @@ def run(chk: core.Check):
             return "ok"
         if out.startswith("ctor:ValueError") or out.startswith("fit:ValueError"):
             return "err"
+        if c.get("stage") and out.startswith("predict:ValueError"):
+            return "err"
         return out
 
     chk.run_stream("grid", cs, impl, line=line, canon=canon, model_map=lambda c, o: "ok" if o == "ok" else ("err" if o in ("ctor-err", "fit-err") else o),
+                   skip=lambda c, r: "cost-cannot-score-such-short-segments-at-setup" if r["outcome"].startswith("setup-") and permitted_extra(c, r["outcome"]) else None,
                    oracle=oracle, site="constructors/fit", nontrivial=lambda c, r: r["outcome"] == "ok", describe=describe)
     return chk.finish()
 
